@@ -22,6 +22,7 @@ import (
 	"github.com/advancedclimatesystems/gonnx/onnx"
 	"github.com/advancedclimatesystems/gonnx/ops"
 	"github.com/advancedclimatesystems/gonnx/ops/opset13"
+	"github.com/advancedclimatesystems/gonnx/verifsim"
 	"google.golang.org/protobuf/proto"
 	"gorgonia.org/tensor"
 
@@ -51,6 +52,9 @@ type Case struct {
 	Prelude []Case `json:"prelude,omitempty"`
 	// Env: environment variables (of those the code under test reads) set around this case.
 	Env map[string]string `json:"env,omitempty"`
+	// Clock: simulated time moved forward by this many nanoseconds before the load (and before its k-th follow-up
+	// action: Run, second load); only drawn when the tree reads the clock.
+	Clock []int64 `json:"clock,omitempty"`
 }
 
 var fixedMtime = time.Unix(1_000_000_000, 0)
@@ -136,6 +140,7 @@ func load(c *Case, env *Env) (m *gonnx.Model, o outcome) {
 		// the first must not have changed what the message says
 		o = guard(func() (err error) { _, err = gonnx.NewModel(mp); return })
 		if o.kind == "ok" {
+			tick(c, 2)
 			o = guard(func() (err error) { m, err = gonnx.NewModel(mp); return })
 		}
 	case "file":
@@ -322,6 +327,13 @@ func entryIsDirectory(c *Case) bool {
 		idx = pickEntry(zr)
 	}
 	return strings.HasSuffix(zr.File[idx].Name, "/")
+}
+
+// tick applies the k-th clock jump of the case.
+func tick(c *Case, k int) {
+	if len(c.Clock) > 0 {
+		verifsim.AdvanceClock(time.Duration(c.Clock[k%len(c.Clock)]))
+	}
 }
 
 // pickEntry: the first entry whose name ends in ".onnx", else the first entry.
@@ -556,7 +568,9 @@ func whyKind(why string) string {
 // Check18 evaluates the C18 oracle on one case. It returns the violations found (at most one).
 func Check18(c *Case, env *Env) []verdict {
 	defer evid.ApplyEnv(c.Env)()
+	tick(c, 0)
 	m, o := load(c, env)
+	tick(c, 1)
 	st := env.Stats
 	if st != nil {
 		st.Probe("load_" + o.kind)
@@ -666,6 +680,7 @@ func Check18(c *Case, env *Env) []verdict {
 		return 0
 	}
 	for k := 0; k < 2; k++ {
+		tick(c, 2+k)
 		in2, _ := synthInputs(mp)
 		if o2 := guard(func() error { _, err := m.Run(in2); return err }); rank(o2) > rank(ro) {
 			ro = o2
@@ -703,7 +718,9 @@ func Check18(c *Case, env *Env) []verdict {
 // Check12 evaluates the C12 oracle on one case.
 func Check12(c *Case, env *Env) []verdict {
 	defer evid.ApplyEnv(c.Env)()
+	tick(c, 0)
 	m, o := load(c, env)
+	tick(c, 1)
 	st := env.Stats
 	if st != nil {
 		st.Probe("load_" + o.kind)
